@@ -57,21 +57,21 @@ end
 theorem startsSpecial_cons {h : Char} {s : List Char} (hh : isSpecial h = true) : StartsSpecial (h :: s) := hh
 
 /-- pending text `pre` in front of a special character -/
-theorem argB_flush' (cc : CharClass) (P : Profile) (pre s : List Char) (acc : List Piece)
+theorem argB_flush' (cc : CharClass) (P : Profile) (d : Nat) (pre s : List Char) (acc : List Piece)
     (hpre : pre.all nonSpecial = true) (hs : StartsSpecial s) :
-    argB cc P (pre ++ s) acc = argB cc P s (acc ++ flushText pre) := by
+    argB cc P d (pre ++ s) acc = argB cc P d s (acc ++ flushText pre) := by
   cases pre with
   | nil => simp [flushText]
   | cons c t =>
     simp only [List.all_cons, Bool.and_eq_true] at hpre
     have hc : isSpecial c = false := by simpa [nonSpecial] using hpre.1
-    simpa [flushText] using argB_flush cc P c t s acc hc hpre.2 hs
+    simpa [flushText] using argB_flush cc P d c t s acc hc hpre.2 hs
 
 /-- a non-empty run of ordinary characters as a whole argument: one `Text` piece -/
-theorem argB_plain (cc : CharClass) (P : Profile) (t more : List Char) (acc : List Piece)
+theorem argB_plain (cc : CharClass) (P : Profile) (d : Nat) (t more : List Char) (acc : List Piece)
     (ht : t.all nonSpecial = true) (hm : NoParenHead more) :
-    argB cc P (t ++ ')' :: more) acc = .ok (acc ++ flushText t) more := by
-  rw [argB_flush' cc P t (')' :: more) acc ht (startsSpecial_cons (by decide)), argB_close cc P more _ hm]
+    argB cc P d (t ++ ')' :: more) acc = .ok (acc ++ flushText t) more := by
+  rw [argB_flush' cc P d t (')' :: more) acc ht (startsSpecial_cons (by decide)), argB_close cc P d more _ hm]
 
 theorem wfLit_plain {inArg : Bool} {l : Lit} (h : wfLit inArg l = true) (he : l.esc = .plain) :
     isSpecial l.c = false := by
@@ -90,60 +90,60 @@ theorem wfLit_escaped {inArg : Bool} {l : Lit} (h : wfLit inArg l = true) (he : 
     exact absurd h he
 
 /-- `next` on a printed escape, and the first character of the print -/
-theorem next_escape (cc : CharClass) (P : Profile) (inArg : Bool) (l : Lit) (rest : List Char)
+theorem next_escape (cc : CharClass) (P : Profile) (d : Nat) (inArg : Bool) (l : Lit) (rest : List Char)
     (h : wfLit inArg l = true) (he : l.esc ≠ .plain) :
-    next cc P (showLit l ++ rest) = .ok (some (.text [l.c])) rest ∧
+    nextAt cc P d (showLit l ++ rest) = .ok (some (.text [l.c])) rest ∧
     ∃ hd tl, showLit l ++ rest = hd :: tl ∧ isSpecial hd = true := by
   have hs := wfLit_escaped h he
   cases hesc : l.esc with
   | plain => exact absurd hesc he
   | doubled =>
-    exact ⟨by simpa [showLit, hesc] using next_doubled cc P l.c rest hs, l.c, l.c :: rest,
+    exact ⟨by simpa [showLit, hesc] using next_doubled cc P d l.c rest hs, l.c, l.c :: rest,
       by simp [showLit, hesc], hs⟩
   | backslash =>
-    exact ⟨by simpa [showLit, hesc] using next_backslash cc P l.c rest hs, '\\', l.c :: rest,
+    exact ⟨by simpa [showLit, hesc] using next_backslash cc P d l.c rest hs, '\\', l.c :: rest,
       by simp [showLit, hesc], by decide⟩
 
 /-- one iteration of the argument loop on a printed escape: `))` by the rule of 185a57e, every
 other escape through `next` -/
-theorem argB_escape (cc : CharClass) (P : Profile) (hP : P.doubledCloseParen = true) (l : Lit)
+theorem argB_escape (cc : CharClass) (P : Profile) (d : Nat) (hP : P.doubledCloseParen = true) (l : Lit)
     (rest : List Char) (acc : List Piece) (h : wfLit true l = true) (he : l.esc ≠ .plain) :
-    argB cc P (showLit l ++ rest) acc = argB cc P rest (acc ++ [.text [l.c]]) := by
+    argB cc P d (showLit l ++ rest) acc = argB cc P d rest (acc ++ [.text [l.c]]) := by
   have hs := wfLit_escaped h he
   cases hesc : l.esc with
   | plain => exact absurd hesc he
   | backslash =>
-    have hn := next_backslash cc P l.c rest hs
-    simpa [showLit, hesc] using argB_step cc P '\\' (l.c :: rest) acc (by decide) _ _ hn
+    have hn := next_backslash cc P d l.c rest hs
+    simpa [showLit, hesc] using argB_step cc P d '\\' (l.c :: rest) acc (by decide) _ _ hn
   | doubled =>
     by_cases hc : l.c = ')'
-    · simpa [showLit, hesc, hc] using argB_dbl cc P hP rest acc
-    · have hn := next_doubled cc P l.c rest hs
-      simpa [showLit, hesc] using argB_step cc P l.c (l.c :: rest) acc hc _ _ hn
+    · simpa [showLit, hesc, hc] using argB_dbl cc P d hP rest acc
+    · have hn := next_doubled cc P d l.c rest hs
+      simpa [showLit, hesc] using argB_step cc P d l.c (l.c :: rest) acc hc _ _ hn
 
 theorem all_nonSpecial_snoc {pre : List Char} {c : Char} (hp : pre.all nonSpecial = true)
     (hc : isSpecial c = false) : (pre ++ [c]).all nonSpecial = true := by
   simp [List.all_append, hp, nonSpecial, hc]
 
 /-- the argument loop over printed literal text -/
-theorem argB_lits (cc : CharClass) (P : Profile) (hP : P.doubledCloseParen = true) :
+theorem argB_lits (cc : CharClass) (P : Profile) (d : Nat) (hP : P.doubledCloseParen = true) :
     ∀ (ls : List Lit) (pre more : List Char) (acc : List Piece),
     ls.all (wfLit true) = true → pre.all nonSpecial = true → NoParenHead more →
-    argB cc P (pre ++ (showLits ls ++ ')' :: more)) acc = .ok (acc ++ litPieces pre ls) more
+    argB cc P d (pre ++ (showLits ls ++ ')' :: more)) acc = .ok (acc ++ litPieces pre ls) more
   | [], pre, more, acc, _, hpre, hm => by
-    simpa [showLits, litPieces] using argB_plain cc P pre more acc hpre hm
+    simpa [showLits, litPieces] using argB_plain cc P d pre more acc hpre hm
   | l :: ls, pre, more, acc, hwf, hpre, hm => by
     simp only [List.all_cons, Bool.and_eq_true] at hwf
     by_cases he : l.esc = .plain
     · have hc := wfLit_plain hwf.1 he
-      have ih := argB_lits cc P hP ls (pre ++ [l.c]) more acc hwf.2 (all_nonSpecial_snoc hpre hc) hm
+      have ih := argB_lits cc P d hP ls (pre ++ [l.c]) more acc hwf.2 (all_nonSpecial_snoc hpre hc) hm
       simpa [showLits, showLit, he, litPieces] using ih
     · obtain ⟨_, hd, tl, hshape, hsp⟩ :=
-        next_escape cc P true l (showLits ls ++ ')' :: more) hwf.1 he
-      have ih := argB_lits cc P hP ls [] more (acc ++ flushText pre ++ [.text [l.c]]) hwf.2 (by simp) hm
+        next_escape cc P d true l (showLits ls ++ ')' :: more) hwf.1 he
+      have ih := argB_lits cc P d hP ls [] more (acc ++ flushText pre ++ [.text [l.c]]) hwf.2 (by simp) hm
       simp only [showLits, litPieces, he, if_false, List.append_assoc]
-      rw [argB_flush' cc P pre _ acc hpre (by rw [hshape]; exact hsp)]
-      rw [argB_escape cc P hP l _ _ hwf.1 he]
+      rw [argB_flush' cc P d pre _ acc hpre (by rw [hshape]; exact hsp)]
+      rw [argB_escape cc P d hP l _ _ hwf.1 he]
       simpa using ih
 
 end Log4rs.Pattern.Parse
